@@ -1,12 +1,11 @@
 (* C05: parsePose on a file written by Pose.write, against Pose.read of the same bytes. *)
 From Coq Require Import ZArith NArith List Lia ZifyBool ZifyN ZifyNat Bool Arith.
 Require Import ListN Result Bytes Utf8 Utf8S F32 Prog Tensor Codec ProgLemmas CodecRT
-  C05_JsParser C05_View C05_Lemmas C05_Header C05_HeaderView C05_Body C05_Index.
+  C05_JsParser C05_Spec C05_View C05_Lemmas C05_Header C05_HeaderView C05_Body C05_Index C05_Cells.
 Import ListNotations.
 Open Scope nat_scope.
 
 (* ---------- version switch ---------- *)
-Definition v01_word : N := 1036831949%N.     (* struct.pack('<f', 0.1) = cd cc cc 3d *)
 Lemma js_dispatch_words :
   js_version_class 0 = V00 /\ js_version_class 2147483648 = V00 /\ js_version_class v01_word = V01 /\
   js_version_class version_word = V02 /\
@@ -38,7 +37,7 @@ Proof.
   rewrite Hh in Hh'. injection Hh' as <-.
   unfold parse_pose. rewrite Ebs at 1. rewrite (js_header_obj_eq _ _ _ b Hh). rewrite <- canon_header_of.
   assert (Ev : obj_get (js_header_obj (canon_header p) (lenN h)) k_version = Some (VF32 version_word)).
-  { unfold js_header_obj. rewrite canon_header_of. cbn [header_of h_dims h_version]. kred. reflexivity. }
+  { unfold js_header_obj. rewrite canon_header_of. cbn [header_of header_of_v h_dims h_version]. kred. reflexivity. }
   assert (Ehl : get_num (js_header_obj (canon_header p) (lenN h)) k_headerLength = Some (Z.of_N (lenN h))).
   { unfold js_header_obj. destruct (h_dims (canon_header p)) as [[w hh] d]. kred. reflexivity. }
   rewrite Ev, header_comps_obj, Ehl, js_class_v02.
@@ -47,32 +46,10 @@ Proof.
   rewrite Hb. reflexivity.
 Qed.
 
-Lemma in_skipn {X} (x : X) n l : In x (skipn n l) -> In x l.
-Proof. intros H. rewrite <- (firstn_skipn n l). apply in_or_app. now right. Qed.
-
 (* ---------- Python's tensors ---------- *)
 Definition nat_shape (b : body) : list nat := map N.to_nat (b_shape b).
 Definition py_data (b : body) : tensor N := mkT (nat_shape b) (b_data b).
 Definition py_conf (b : body) : tensor N := mkT (firstn 3 (nat_shape b)) (b_conf b).
-(* index of a component's first point among all points (pose_header.py: components are concatenated in order) *)
-Definition point_offset (cs : list component) (n : nat) : nat :=
-  fold_right Nat.add 0 (map (fun c => length (c_points c)) (firstn n cs)).
-
-Lemma koff_offset cs : forall n, koff (firstn n (map jcomp_of_comp cs)) = Z.of_nat (point_offset cs n).
-Proof.
-  unfold koff, point_offset. induction cs as [|c cs IH]; intros [|n]; cbn [firstn map fold_right]; try reflexivity.
-  rewrite IH. cbn [jc_plen jcomp_of_comp]. unfold lenN. lia.
-Qed.
-Lemma offset_bound cs : forall n c, nth_error cs n = Some c ->
-  point_offset cs n + length (c_points c) <= fold_right Nat.add 0 (map (fun c => length (c_points c)) cs).
-Proof.
-  unfold point_offset. induction cs as [|c0 cs IH]; intros [|n] c Hn; cbn [nth_error firstn map fold_right] in *; try discriminate.
-  - injection Hn as ->. lia.
-  - specialize (IH n c Hn). lia.
-Qed.
-Lemma sumN_nat (cs : list component) :
-  N.to_nat (sumN (map (fun c => lenN (c_points c)) cs)) = fold_right Nat.add 0 (map (fun c => length (c_points c)) cs).
-Proof. induction cs as [|c cs IH]; [reflexivity|]. cbn [map sumN fold_right] in *. unfold sumN in IH. unfold lenN in *. lia. Qed.
 
 (* parsePose against Pose.read, every cell.  [full_read_prog] is the Python reader (CodecRT.full_read_rt: it returns
    [canon p]); cells are addressed as an application does: frames[i].people[j][component name][l][letter]. *)
@@ -94,62 +71,39 @@ Proof.
   destruct (js_parse_v02 p bs F0 P0 T0 D0 H Hwf Hs Hplain) as [h [Hh Hparse]].
   exists (canon p). eexists. split; [exact (RTp_run _ _ _ (full_read_rt p bs H Hwf HD))|]. split; [exact Hparse|].
   cbn [jp_frame p_body p_header canon].
-  intros F P T D Hshape i j n l c Hi Hj Hn Hl Hlater. set (t := point_offset (h_comps (canon_header p)) n + l).
+  intros F P T D Hshape.
+  unfold py_conf, py_data. rewrite Hshape. cbn [firstn].
   unfold nat_shape, canon_body in Hshape. cbn [b_shape] in Hshape. rewrite Hs in Hshape. cbn [map] in Hshape.
   injection Hshape as <- <- <- <-.
-  (* the component as the JavaScript side sees it *)
-  assert (Hcp : comp_no_bom c).
-  { rewrite canon_header_of in Hn. cbn [header_of h_comps] in Hn. apply nth_error_In in Hn. apply in_map_iff in Hn.
-    destruct Hn as [wc [<- Hin]]. rewrite Forall_forall in Hplain. exact (proj1 (Hplain wc Hin)). }
-  assert (Hname : jc_name (jcomp_of_comp c) = c_name c) by (cbn [jcomp_of_comp jc_name]; apply strip_no_bom, Hcp).
-  assert (Hfmt : jc_format (jcomp_of_comp c) = c_format c) by (cbn [jcomp_of_comp jc_format]; apply strip_no_bom, Hcp).
-  assert (Hn' : nth_error (comps_of p) n = Some (jcomp_of_comp c)).
-  { unfold comps_of. rewrite canon_header_of in Hn. cbn [header_of h_comps] in Hn. now rewrite nth_error_map, Hn. }
-  assert (Hlater' : ~ In (jc_name (jcomp_of_comp c)) (map jc_name (skipn (S n) (comps_of p)))).
-  { rewrite Hname. intros Hin. apply Hlater. unfold comps_of in Hin. rewrite canon_header_of. cbn [header_of h_comps].
-    rewrite skipn_map in Hin. rewrite map_map in Hin. apply in_map_iff in Hin. destruct Hin as [c' [E Hin']].
-    apply in_map_iff. exists c'. split; [|exact Hin'].
-    rewrite <- E. cbn [jcomp_of_comp jc_name]. symmetry. apply strip_no_bom.
-    apply in_skipn in Hin'. rewrite canon_header_of in Hn. 
-    assert (Hall : Forall comp_no_bom (map canon_comp (w_comps p))).
-    { apply canon_no_bom. eapply Forall_impl; [|exact Hplain]. intros a Ha. exact (proj1 Ha). }
-    rewrite Forall_forall in Hall. exact (proj1 (Hall c' Hin')). }
-  set (jb := jbody_of p F0 P0 T0 D0).
-  assert (Hj' : j < Z.to_nat (jb_people jb)) by (cbn [jb jbody_of jb_people]; lia).
-  assert (Hl' : l < Z.to_nat (jc_plen (jcomp_of_comp c))) by (cbn [jcomp_of_comp jc_plen]; unfold lenN; lia).
-  pose proof (js_cell_lookup (comps_of p) jb i j n l) as HL.
-  (* where the point sits *)
-  assert (Hoff : koff (firstn n (comps_of p)) = Z.of_nat (point_offset (h_comps (canon_header p)) n)).
-  { unfold comps_of. rewrite canon_header_of. cbn [header_of h_comps]. apply koff_offset. }
-  assert (Ht : t < N.to_nat T0).
-  { unfold t. pose proof (offset_bound _ _ _ Hn) as Hb. rewrite <- sumN_nat in Hb.
-    rewrite canon_header_of in Hb. cbn [header_of h_comps] in Hb. rewrite map_map in Hb.
-    unfold total_points_w in Htp. cbn [canon_comp c_points] in Hb. rewrite Htp in Hb.
-    rewrite canon_header_of. cbn [header_of h_comps]. lia. }
   destruct Hwf as [Hld Hlc]. rewrite Hs in Hld. rewrite Hcs in Hlc. cbn [prodN fold_right] in Hld, Hlc.
-  assert (Eplace : js_place (js_offset (Z.of_nat i) (jb_people jb) (jb_points jb) (Z.of_nat j)) (koff (firstn n (comps_of p))) (Z.of_nat l)
-                   = Z.of_nat (ravel [N.to_nat F0; N.to_nat P0; N.to_nat T0] [i; j; t])).
-  { rewrite Hoff. unfold t. cbn [jb jbody_of jb_people jb_points]. rewrite <- js_place_ravel. rewrite !N_nat_Z. reflexivity. }
-  split.
-  - destruct (HL 0 (jcomp_of_comp c) 67%N Hj' Hn' Hl' Hlater') as [HC _]. rewrite Hname in HC. rewrite HC.
-    rewrite Eplace. f_equal. rewrite f32_at_nth;
-      [unfold tget, py_conf, nat_shape; cbn [shape data canon_body b_shape b_conf]; rewrite Hs; reflexivity|].
-    cbn [jb jbody_of jb_conf canon_body b_conf]. rewrite map_length.
-    assert (Hr : ravel [N.to_nat F0; N.to_nat P0; N.to_nat T0] [i; j; t] < prod [N.to_nat F0; N.to_nat P0; N.to_nat T0]).
-    { apply ravel_lt. repeat constructor; assumption. }
-    cbn [prod fold_right] in Hr. unfold lenN in Hlc. lia.
-  - intros d x Hd Hx HdD Hxl.
-    destruct (HL d (jcomp_of_comp c) x Hj' Hn' Hl' Hlater') as [_ HX]. rewrite Hname, Hfmt in HX.
-    rewrite (HX Hd Hx Hxl). rewrite Eplace. f_equal.
-    cbn [jb jbody_of jb_dims jb_data].
-    replace (Z.of_N D0) with (Z.of_nat (N.to_nat D0)) by lia.
-    assert (Eidx : js_data_index (Z.of_nat (ravel [N.to_nat F0; N.to_nat P0; N.to_nat T0] [i; j; t])) (Z.of_nat (N.to_nat D0)) (Z.of_nat d)
-                   = Z.of_nat (ravel [N.to_nat F0; N.to_nat P0; N.to_nat T0; N.to_nat D0] [i; j; t; d])).
-    { unfold js_data_index. cbn [ravel prod fold_right]. repeat (rewrite Nat2Z.inj_add || rewrite Nat2Z.inj_mul). cbn [Z.of_nat]. ring. }
-    rewrite Eidx. rewrite f32_at_nth;
-      [unfold tget, py_data, nat_shape; cbn [shape data canon_body b_shape b_data]; rewrite Hs; reflexivity|].
-    cbn [canon_body b_data]. rewrite map_length.
-    assert (Hr : ravel [N.to_nat F0; N.to_nat P0; N.to_nat T0; N.to_nat D0] [i; j; t; d] < prod [N.to_nat F0; N.to_nat P0; N.to_nat T0; N.to_nat D0]).
-    { apply ravel_lt. repeat constructor; assumption. }
-    cbn [prod fold_right] in Hr. unfold lenN in Hld. lia.
+  assert (Ecomps : comps_of p = map jcomp_of_comp (h_comps (canon_header p))) by (unfold comps_of; now rewrite canon_header_of).
+  rewrite Ecomps.
+  apply (js_cells_eq (h_comps (canon_header p)) (N.to_nat F0) (N.to_nat P0) (N.to_nat T0) (N.to_nat D0) (jbody_of p F0 P0 T0 D0)).
+  - rewrite canon_header_of. cbn [header_of header_of_v h_comps]. apply canon_no_bom.
+    eapply Forall_impl; [|exact Hplain]. intros a Ha. exact (proj1 Ha).
+  - cbn [jbody_of jb_people]. lia.
+  - cbn [jbody_of jb_points]. lia.
+  - cbn [jbody_of jb_dims]. lia.
+  - rewrite <- sumN_nat. rewrite canon_header_of. cbn [header_of header_of_v h_comps]. rewrite map_map. cbn [canon_comp c_points].
+    unfold total_points_w in Htp. now rewrite Htp.
+  - cbn [jbody_of jb_data canon_body b_data]. rewrite map_length. unfold lenN in Hld. lia.
+  - cbn [jbody_of jb_conf canon_body b_conf]. rewrite map_length. unfold lenN in Hlc. lia.
+Qed.
+
+(* fps, frame count and people count *)
+Theorem js_body_info_eq p bs : write_pose p = Ok bs -> wf_arrays p -> (1 <= nth 3 (w_shape p) 0)%N ->
+  Forall wcomp_plain (w_comps p) ->
+  exists py jp,
+    run_plain full_read_prog {| pbuf := bs; poff := 0 |} = Ok (py, {| pbuf := bs; poff := lenN bs |}) /\
+    parse_pose bs = Some jp /\
+    forall F P T D, b_shape (p_body py) = [F; P; T; D]%N ->
+      info_view_v02 (jp_info jp) = Some (b_fps (p_body py), F, P) /\ jp_nframes jp = Z.of_N F.
+Proof.
+  intros H Hwf HD Hplain.
+  destruct (write_pose_ok _ _ H) as [F0 [P0 [T0 [D0 [h0 [b0 [Hs [Hcs [Hnd [Htp [Hh0 [Hb0 Ebs]]]]]]]]]]]].
+  destruct (js_parse_v02 p bs F0 P0 T0 D0 H Hwf Hs Hplain) as [h [Hh Hparse]].
+  exists (canon p). eexists. split; [exact (RTp_run _ _ _ (full_read_rt p bs H Hwf HD))|]. split; [exact Hparse|].
+  cbn [jp_info jp_nframes p_body canon canon_body b_shape b_fps].
+  intros F P T D Hshape. rewrite Hs in Hshape. injection Hshape as <- <- <- <-.
+  split; [|reflexivity]. unfold info_view_v02, info_obj_v02. kred. now rewrite !vnum_of_N.
 Qed.
